@@ -36,7 +36,7 @@ class Prop(common.PropertyCheck):
                    'bins': rng.choice(['count', 'edges', 'mixed', 'sample_linear', 'sample_log', 'sample_logicle', 'count2']),
                    'f': rng.choice(['0', '1', 'k/n', 'rand', 'rand', 'default']),
                    'sigma': rng.choice(['scalar', 'scalar', 'pair', 'small']), 'seed': rng.randrange(1 << 30)}
-        for what in ('f<0', 'f>1', 'f<0 tiny', 'f>1 tiny', 'f<0 all outside', 'one_channel', 'three_channels', 'one_event'):
+        for what in ('f<0', 'f>1', 'f<0 tiny', 'f>1 tiny', 'f<0 all outside', 'one_channel', 'three_channels', 'three_channels_two_distinct', 'four_channels_two_distinct', 'one_event'):
             yield {'k': 'bad', 'what': what}
 
     def make(self, case):
@@ -129,6 +129,10 @@ class Prop(common.PropertyCheck):
                     FlowCal.gate.density2d(a, [0], bins=5)
                 elif w == 'three_channels':
                     FlowCal.gate.density2d(a, [0, 1, 2], bins=5)
+                elif w == 'three_channels_two_distinct':
+                    FlowCal.gate.density2d(a, [0, 1, 0], bins=5)
+                elif w == 'four_channels_two_distinct':
+                    FlowCal.gate.density2d(a, [1, 0, 1, 0], bins=5)
                 else:
                     FlowCal.gate.density2d(a[:1], [0, 1], bins=5)
                 return {'raised': None}
